@@ -122,6 +122,18 @@ CLAIMED["C12"] = dict(
     note="Same trusted base as C10. Return values are naturals standing for arbitrary values; the exception cause chain is compared "
          "on real runs by the monitor, not in the model.")
 
+CLAIMED["C16"] = dict(
+    text="Lean 4 theorems over every reachable state of a model of ThreadedQueue.worker_bee (repaired), for every batch size, producer "
+         "timing, timer firing and finite failure pattern of the slow queue: accepted batches ++ buffer ++ item in hand ++ queued "
+         "values is always exactly the sequence added (ordered, loss-free, exactly once); a failed extend changes nothing, an "
+         "accepted batch is the buffer; exactly one stop marker, sent last; no crash without an external abort; L1: once the stop "
+         "marker is queued the worker can only come to rest at its end, so stop() returns. The pinned tree hung when the final "
+         "flush failed: fixed in /repo, replay in corpus.",
+    design="§5 C16, §7", technique="Lean 4 inductive invariant + L1 quiescence theorem + trace acceptance of the real worker with a scripted failing sink",
+    note="Trusted: Lean kernel + standard axioms; model TQWorker.lean tied to worker_bee by trace acceptance; a failed extend() "
+         "delivers nothing (assumption on the sink); bounded-step termination (L2) is argued from the finite failure pattern, not "
+         "yet a ranking theorem.")
+
 PENDING = {}
 
 
